@@ -53,7 +53,19 @@ func H_c13_accept() {
 	out := symBytes(symInt(1, 3))
 	n, err := conn.Write(out)
 	symAssert(err == nil && n == len(out), "write-accepts-everything")
-	symAssert(conn.Close() == nil, "close-ok")
+	wantSeq := "gXDd"
+	if symInt(0, 1) == 1 {
+		// the remote station ends the link, the application closes afterwards
+		emu.send('d', "N1CALL-1", "N0CALL", []byte("*** DISCONNECTED From N1CALL-1\r"))
+		time.Sleep(100 * time.Millisecond)
+		b := make([]byte, 4)
+		k, rerr := conn.Read(b)
+		symAssert(k == 0 && rerr == io.EOF, "end-of-stream-after-the-remote-disconnect")
+		conn.Close()
+		wantSeq = "gXD"
+	} else {
+		symAssert(conn.Close() == nil, "close-ok")
+	}
 	symAssert(bytes.Equal(emu.dataIn, out), "tnc-received-the-written-bytes-in-order")
 	symAssert(emu.badFrame == "", "all-frames-well-formed (port, callsigns, pid, reserved bytes)")
 	seq := ""
@@ -62,7 +74,23 @@ func H_c13_accept() {
 			seq += k
 		}
 	}
-	symAssert(seq == "gXDd", "agwpe-exchanges-in-order (g X D d)")
-	_ = io.EOF
+	symAssert(seq == wantSeq, "agwpe-exchanges-in-order (g X D [d])")
+	// the same station calls again: a new connection is accepted and works
+	go func() {
+		time.Sleep(50 * time.Millisecond)
+		emu.send('C', "N1CALL-1", "N0CALL", []byte("*** CONNECTED To Station N0CALL\r"))
+	}()
+	conn2, err := ln.Accept()
+	symAssert(err == nil && conn2 != nil, "second-call-from-the-same-station-accepted")
+	emu.send('D', "N1CALL-1", "N0CALL", in1)
+	var got2 []byte
+	for len(got2) < len(in1) {
+		b := make([]byte, bufsz)
+		k, rerr := conn2.Read(b)
+		symAssert(rerr == nil, "read-ok")
+		got2 = append(got2, b[:k]...)
+	}
+	symAssert(bytes.Equal(got2, in1), "read-yields-exactly-this-connections-payloads-in-order")
+	conn2.Close()
 	symReach("end")
 }
